@@ -50,7 +50,7 @@ class View:
         return self.e.sub_ref(self.st, key, self._ref(obj))
 
     def len(self, vref):
-        return self.f(vref, 'vec.len')
+        return self.e.vec_len(self.st, self._ref(vref))
 
     def elem(self, vref, i):
         return self.e.elem_ref(self.st, self._ref(vref), i)
@@ -236,6 +236,7 @@ class LoopContract:
         nodes = [x for x in (cond, inc, body) if isinstance(x, dict)]
         mod = self.modified_locals(eng, nodes, st)
         if range_info: mod.add(range_info['index_key'])
+        if range_info and range_info.get('acc_key'): mod.add(range_info['acc_key'])
         for vid in mod:
             if vid in self.keep: continue
             v = st.env[vid]
@@ -302,14 +303,20 @@ class LoopContract:
             for key in self.keep_keys:
                 h = head.heap.get(key); arr = s2.heap.get(key)
                 if h is None or arr is None or h is arr or h.eq(arr): continue
-                eng.obligations.append(Obligation('loop-frame[%s]:%s' % (self.ordinal, key), s2.pc, arr == h, 'frame', eng.where(n, fr), info={'fn': fr.qname}))
+                eng.obligations.append(Obligation('loop-frame[%s]:%s' % (self.ordinal, key), s2.pc, frame_goal(arr, h), 'frame', eng.where(n, fr), info={'fn': fr.qname}))
             return
         for key, arr in s2.heap.items():
             if key in self.modifies: continue
             h = head.heap.get(key)
             if h is None: h = eng.base_arrays.get(key)
             if h is None or h is arr or h.eq(arr): continue
-            eng.obligations.append(Obligation('loop-frame[%s]:%s' % (self.ordinal, key), s2.pc, arr == h, 'frame', eng.where(n, fr), info={'fn': fr.qname}))
+            eng.obligations.append(Obligation('loop-frame[%s]:%s' % (self.ordinal, key), s2.pc, frame_goal(arr, h), 'frame', eng.where(n, fr), info={'fn': fr.qname}))
+
+
+def frame_goal(new, old):
+    """'nothing visible changed': equal at every pre-existing object (references > 0); objects created during the
+    execution (locals, temporaries, copies) carry negative references and are not part of the frame"""
+    return QForall(lambda r: z3.Implies(r > 0, z3.Select(new, r) == z3.Select(old, r)), 1, 'frame')
 
 
 class LoopCtx:
@@ -320,6 +327,14 @@ class LoopCtx:
     @property
     def index(self):
         return self.st.env[self.range_info['index_key']]
+
+    @property
+    def acc(self):
+        return self.st.env[self.range_info['acc_key']]
+
+    @property
+    def container(self):
+        return self.range_info['container']
 
     def var(self, name, state=None):
         st = state or self.st
@@ -609,7 +624,7 @@ def check_function(eng, contract, result):
                     h = pre_state.heap.get(key)
                     if h is None: h = eng.base_arrays.get(key)
                     if h is None or h is arr or h.eq(arr): continue
-                    eng.obligations.append(Obligation('assigns:' + key, s.pc, arr == h, 'frame', qn, info={'fn': qn}))
+                    eng.obligations.append(Obligation('assigns:' + key, s.pc, frame_goal(arr, h), 'frame', qn, info={'fn': qn}))
             paths.append((s, outcome, ret))
         result['paths'] = paths
         # relational clauses: run the function again on transformed inputs and relate the two results path by path
